@@ -81,6 +81,10 @@ MUTS = {
  "Q6_extra_bin_periodic_widened": ("src/colvargrid.h", "        if (periodic[i]) {\n          // Just shift\n          upper_boundaries[i] -= 0.5 * widths[i];", "        if (false) {\n          // Just shift\n          upper_boundaries[i] -= 0.5 * widths[i];"),
  "Q7_hist_binary_state_not_read": ("src/colvarbias_histogram.cpp", "cvm::memory_stream & colvarbias_histogram::read_state_data(cvm::memory_stream& is)\n{\n  if (read_state_data_key(is, \"grid\")) {\n    grid->read_raw(is);", "cvm::memory_stream & colvarbias_histogram::read_state_data(cvm::memory_stream& is)\n{\n  if (read_state_data_key(is, \"grid\")) {\n    colvar_grid_scalar tmp(*grid); tmp.setup(); tmp.read_raw(is);"),
  "Q8_delta_grid_sign": ("src/colvargrid.h", "      data[i] = other_grid.data[i] - data[i];", "      data[i] = data[i] - other_grid.data[i];"),
+ "P1_step_absolute_int_copy": ("src/colvarmodule.cpp", "      if (step_absolute() % tsf == 0) {\n        (*bi)->enable(colvardeps::f_cvb_awake);", "      if (((int) step_absolute()) % tsf == 0) {\n        (*bi)->enable(colvardeps::f_cvb_awake);"),
+ "P2_bypass_ext_lagrangian_ignored": ("src/colvarbias_histogram.cpp", "    grid->request_actual_value();", "    ;"),
+ "P3_joint_histogram_actual_value_flag": ("src/colvargrid.h", "        use_actual_value[i-1] = true;", "        use_actual_value[i-1] = false;"),
+ "P4_map_grid_skips_last_component": ("src/colvargrid.h", "      for (size_t im = 0; im < mult; im++) {\n        this->set_value(ix, other_grid.value(oix, im), im);", "      for (size_t im = 0; im + 1 < mult || im == 0; im++) {\n        this->set_value(ix, other_grid.value(oix, im), im);"),
  "M14_init_from_boundaries_truncates": ("src/colvargrid.h", "      int nbins_round = (int)(nbins+0.5);", "      int nbins_round = (int)(nbins);"),
  "M15_state_sizes_line_missing_value": ("src/colvargrid_def.h", "  for (i = 0; i < nd; i++)\n    os << \" \" << nx[i];", "  for (i = 0; i + 1 < nd; i++)\n    os << \" \" << nx[i];"),
  "M10_raw_values_not_in_address_order": ("src/colvargrid_def.h",
